@@ -40,9 +40,12 @@ class MyDT(datetime):
 class C:
 %s
 '''
-IMPORTS = {'v0': 'from dataclass_wizard import DatePattern, TimePattern, DateTimePattern, Pattern',
+IMPORTS = {'v0': 'from dataclass_wizard import DatePattern, TimePattern, DateTimePattern, Pattern\n'
+                 'from dataclass_wizard import json_field, json_key, path_field, KeyPath, skip_if_field, SkipIfNone\n'
+                 'from dataclasses import field',
            'v1': 'from dataclass_wizard.v1 import (Pattern, AwarePattern, UTCPattern, DatePattern, DateTimePattern, TimePattern,\n'
-                 '    AwareDateTimePattern, AwareTimePattern, UTCDateTimePattern, UTCTimePattern)'}
+                 '    AwareDateTimePattern, AwareTimePattern, UTCDateTimePattern, UTCTimePattern, Alias, AliasPath)\n'
+                 'from dataclasses import field'}
 
 
 def tzd(t):
@@ -110,7 +113,7 @@ def run_group(g, idx):
     name = 'c17_mod_%d' % idx
     mod = types.ModuleType(name)
     sys.modules[name] = mod
-    lines = ['    f%d: %s = None' % (i, f['ann']) for i, f in enumerate(g['fields'])]
+    lines = ['    f%d: %s = %s' % (i, f['ann'], f.get('rhs', 'None')) for i, f in enumerate(g['fields'])]
     src = HEADER % (IMPORTS[g['engine']], g.get('header', ''), '\n'.join(lines))
     if g['engine'] == 'v1':
         src += '\nLoadMeta(v1=True).bind_to(C)\n'
@@ -122,11 +125,27 @@ def run_group(g, idx):
         return [[dict(err(e), phase='class')] * len(f['inputs']) for f in g['fields']]
     for i, f in enumerate(g['fields']):
         key = 'f%d' % i
+        path = f.get('path') or [key]
+
+        def wrap(v):
+            for k in reversed(path):
+                v = {k: v}
+            return v
+
+        def unwrap(d):
+            """the dumped form of the field: under its path / alias / own name"""
+            x = d
+            try:
+                for k in path:
+                    x = x[k]
+                return x
+            except (KeyError, TypeError):
+                return d.get(key)
         res = []
         for s in f['inputs']:
             r = {}
             try:
-                inst = fromdict(C, {key: s})
+                inst = fromdict(C, wrap(s))
                 v = getattr(inst, key)
                 r['load'] = {'ok': canon(v)}
             except BaseException as e:
@@ -135,8 +154,8 @@ def run_group(g, idx):
                 continue
             try:
                 d = asdict(inst)
-                r['dump'] = d.get(key)
-                inst2 = fromdict(C, {key: d.get(key)})
+                r['dump'] = unwrap(d)
+                inst2 = fromdict(C, wrap(r['dump']))
                 v2 = getattr(inst2, key)
                 r['again'] = {'ok': canon(v2)}
                 r['again_equal'] = bool(v2 == v) and same_types(v, v2)
